@@ -242,6 +242,11 @@ class QuicSession:
             logging.warning(f"Could not decrypt Quic Packet: {quic_packet.dcid}")
 
     def packet_isserver(self, packet, dcid):
+        # the socket addresses decide; connection IDs only when the sender is not one of the known endpoints (migration)
+        if packet.ip_src == self.server_ip and packet.sport == self.server_port:
+            return True
+        if packet.ip_src == self.client_ip and packet.sport == self.client_port:
+            return False
         # a zero-length connection ID says nothing about the direction: both endpoints may use one
         if len(dcid) > 0 and dcid in self.server_cids:
             return False
